@@ -40,10 +40,28 @@ def seeded_table():
     return '\n'.join(rows)
 
 
+def benign_table():
+    p = os.path.join(VERIF, 'benign', 'RESULTS.json')
+    if not os.path.exists(p):
+        return '(no benign change evaluated yet)'
+    r = json.load(open(p))
+    rows = ['| benign change | what it changes | checks run | quiet | no-failing-input-found | VIOLATION with input |',
+            '|---|---|---|---|---|---|']
+    for n in sorted(r):
+        x = r[n]
+        c = x.get('checks', {})
+        k = lambda kind: [p_ for p_, v in sorted(c.items()) if v['kind'] == kind]
+        other = [p_ for p_, v in sorted(c.items()) if v['kind'] not in ('quiet', 'no-failing-input-found', 'VIOLATION')]
+        rows.append('| %s | %s | %d | %d | %s | %s |' % (
+            n, (x.get('title') or x.get('error') or '').replace('|', '/'), len(c), len(k('quiet')),
+            ', '.join(k('no-failing-input-found')) or '—', ', '.join(k('VIOLATION') + other) or '—'))
+    return '\n'.join(rows)
+
+
 def main():
     p = os.path.join(VERIF, 'DESIGN.md')
     s = open(p).read()
-    for name, fn in (('FINDINGS', findings_table), ('SEEDED', seeded_table)):
+    for name, fn in (('FINDINGS', findings_table), ('SEEDED', seeded_table), ('BENIGN', benign_table)):
         a, b = '<!-- %s-BEGIN -->' % name, '<!-- %s-END -->' % name
         if a in s and b in s:
             i, j = s.index(a) + len(a), s.index(b)
